@@ -6,9 +6,13 @@
  *               lib/include/mb_mgr_job_check.h (static inline, compiled here from the /repo header)
  *               exactly like submit_job_and_check() does; print `accept` / `reject <errno>`.
  *   l <cases>   same for is_job_invalid_light() (as called by imb_set_session()).
- *   b <cases>   behaviour through the public API of the rebuilt library (job API and async burst
- *               API) on every manager (sse/avx2/avx512 x flags 0 / SHANI_OFF|GFNI_OFF); prints one
- *               result record per (case, manager, api); see print format at run_b().
+ *   b <cases> [<selector>]
+ *               behaviour through the public API of the rebuilt library (job API, async burst API and
+ *               the synchronous cipher / hash / AEAD burst API) on every manager (sse/avx2/avx512 x
+ *               flags 0 / SHANI_OFF|GFNI_OFF); prints one result record per (case, manager, api[, burst
+ *               layout]); see print format at run_b() and run_sync().  <selector>: one character per
+ *               case, '0' = job + async burst, '1' = all three, '2' / '3' = synchronous burst only (on a
+ *               rotating pair of managers / on all).
  *   i <cases>   suite id of every job_view as computed by the library (IMB_MGR.set_suite_id); compared with
  *               the translated calc_cipher_tab_index / set_cipher_suite_id
  *   s           checked async burst with right / stale suite-id words (see run_s)
@@ -576,14 +580,499 @@ run_case_burst(IMB_MGR *m, const struct view *v, int *status, int *err, int *ret
         return 0;
 }
 
+/* ------------------------------------------------------------------ mode b, third API kind: "sync"
+ * The SYNCHRONOUS burst API (lib/include/mb_mgr_burst.h): the caller owns a contiguous IMB_JOB array and
+ * names the algorithm in the call:
+ *   kind 1  IMB_SUBMIT_CIPHER_BURST(mgr, jobs, n, cipher, dir, key_size)   CBC / CNTR / ECB / CFB, hash NULL
+ *   kind 2  IMB_SUBMIT_HASH_BURST(mgr, jobs, n, hash)                      HMAC-SHA-1..512, SHA-1..512, AES-CMAC{,_BITLEN,_256}
+ *   kind 3  IMB_SUBMIT_AEAD_BURST(mgr, jobs, n, cipher, dir, key_size)     AES-CCM
+ * A case is applicable when its descriptor names such an algorithm; cipher / dir / key size / hash
+ * arguments are taken from the descriptor itself (what a caller following the documentation passes).
+ * The descriptor sits at position `pos` of a burst of `n` whose other entries are valid neighbour jobs
+ * of the same algorithm / direction / key size (buffers outside the arena).  Layouts: (pos,n) = (0,2),
+ * (1,3), (2,3); when the call arguments themselves are unusable for any job (direction not 1/2, key
+ * size the algorithm does not have) the case is submitted alone (0,1).  An accepted (1,3) run is
+ * repeated through the _NOCHECK entry point (chk=0).
+ *
+ * One record per run:
+ *   R <case> <mgr> sync status=<case job status> errno=<e> ret=<r> desc=<case descriptor changed>
+ *        arena=<arena differs from pristine+view> nbr=<see below> order=<see below> fault=<sig|0> rc=<harness>
+ *        kind=<1|2|3> pos=<p> n=<n> chk=<1|0> out=<arena differs from the job-API run of the same descriptor | -1 no reference>
+ *        refst=<status of that job-API run> referr=<its errno> phase=<1 reference runs | 2 burst call>
+ * A run "looks rejected" when ret == 0 and errno != 0.  Then
+ *   nbr   = a neighbour descriptor changed (status included), a neighbour dst/tag byte was written, or a
+ *           burst of the two neighbours alone does not complete with reference output afterwards
+ *   order = the first job with status INVALID_ARGS is not the case (or another job carries it too)
+ * otherwise
+ *   nbr   = a neighbour is not COMPLETED with its reference output (reference = job API, same manager)
+ *   order = 0
+ * The reference run of the case descriptor goes through IMB_SUBMIT_JOB on the same manager; for AES-CCM
+ * its chain order is set to the one the burst implements (encrypt: hash then cipher; decrypt: cipher
+ * then hash) -- the burst call has no chain-order input. */
+enum { SYNC_NA = 0, SYNC_CIPHER = 1, SYNC_HASH = 2, SYNC_AEAD = 3 };
+
 static int
-run_b(const char *path)
+sync_kind(const struct view *v)
+{
+        const uint32_t cm = (uint32_t) v->f[16], ha = (uint32_t) v->f[18];
+
+        if (ha == IMB_AUTH_NULL &&
+            (cm == IMB_CIPHER_CBC || cm == IMB_CIPHER_CNTR || cm == IMB_CIPHER_ECB || cm == IMB_CIPHER_CFB))
+                return (v->f[2] >> 32) ? SYNC_NA : SYNC_CIPHER; /* key size travels as a 32-bit enum argument */
+        if (cm == IMB_CIPHER_NULL)
+                switch (ha) {
+                case IMB_AUTH_HMAC_SHA_1:
+                case IMB_AUTH_HMAC_SHA_224:
+                case IMB_AUTH_HMAC_SHA_256:
+                case IMB_AUTH_HMAC_SHA_384:
+                case IMB_AUTH_HMAC_SHA_512:
+                case IMB_AUTH_SHA_1:
+                case IMB_AUTH_SHA_224:
+                case IMB_AUTH_SHA_256:
+                case IMB_AUTH_SHA_384:
+                case IMB_AUTH_SHA_512:
+                case IMB_AUTH_AES_CMAC:
+                case IMB_AUTH_AES_CMAC_BITLEN:
+                case IMB_AUTH_AES_CMAC_256:
+                        return SYNC_HASH;
+                default:
+                        return SYNC_NA;
+                }
+        if (cm == IMB_CIPHER_CCM && ha == IMB_AUTH_AES_CCM)
+                return (v->f[2] >> 32) ? SYNC_NA : SYNC_AEAD;
+        return SYNC_NA;
+}
+
+/* can ANY job be valid under the call arguments the case dictates?  (else no neighbours) */
+static int
+sync_args_ok(int kind, const struct view *v)
+{
+        const uint32_t dir = (uint32_t) v->f[17];
+        const uint64_t key = v->f[2];
+
+        if (kind == SYNC_HASH)
+                return 1;
+        if (dir != IMB_DIR_ENCRYPT && dir != IMB_DIR_DECRYPT)
+                return 0;
+        if (kind == SYNC_CIPHER)
+                return key == 16 || key == 24 || key == 32;
+        return key == 16 || key == 32;
+}
+
+struct snbr {
+        DECLARE_ALIGNED(uint8_t ek[16 * 15], 16);
+        DECLARE_ALIGNED(uint8_t dk[16 * 15], 16);
+        DECLARE_ALIGNED(uint8_t sk[2][16], 16);
+        DECLARE_ALIGNED(uint8_t pad[2][64], 16);
+        uint8_t iv[16], aad[16];
+        uint8_t src[256], dst[256], tag[64];
+        uint8_t ref_dst[256], ref_tag[64];
+        unsigned len;
+};
+static struct snbr SN[2];
+
+static void
+snbr_init(void)
+{
+        for (int k = 0; k < 2; k++) {
+                struct snbr *n = &SN[k];
+                uint8_t *p = (uint8_t *) n;
+                uint32_t s = 0x1234567u + 77u * (unsigned) k;
+                for (size_t i = 0; i < sizeof(*n); i++) {
+                        s = s * 1664525u + 1013904223u;
+                        p[i] = (uint8_t) (s >> 24);
+                }
+                n->len = k ? 128 : 64;
+        }
+}
+
+static uint64_t
+sync_tag_len(uint32_t ha)
+{
+        switch (ha) {
+        case IMB_AUTH_HMAC_SHA_1:
+                return 12;
+        case IMB_AUTH_HMAC_SHA_224:
+                return 14;
+        case IMB_AUTH_HMAC_SHA_256:
+                return 16;
+        case IMB_AUTH_HMAC_SHA_384:
+                return 24;
+        case IMB_AUTH_HMAC_SHA_512:
+                return 32;
+        case IMB_AUTH_SHA_1:
+                return 20;
+        case IMB_AUTH_SHA_224:
+                return 28;
+        case IMB_AUTH_SHA_256:
+                return 32;
+        case IMB_AUTH_SHA_384:
+                return 48;
+        case IMB_AUTH_SHA_512:
+                return 64;
+        case IMB_AUTH_AES_CMAC_BITLEN:
+                return 4;
+        default:
+                return 16; /* AES-CMAC, AES-CMAC-256 */
+        }
+}
+
+/* a valid job of the algorithm the case names */
+static void
+snbr_fill(IMB_JOB *j, struct snbr *n, int kind, const struct view *v)
+{
+        const uint32_t cm = (uint32_t) v->f[16], dir = (uint32_t) v->f[17], ha = (uint32_t) v->f[18];
+
+        memset(j, 0, sizeof(*j));
+        memset(n->dst, 0xA5, sizeof(n->dst));
+        memset(n->tag, 0x5A, sizeof(n->tag));
+        j->cipher_mode = (IMB_CIPHER_MODE) cm;
+        j->hash_alg = (IMB_HASH_ALG) ha;
+        j->cipher_direction = (kind == SYNC_HASH) ? IMB_DIR_ENCRYPT : (IMB_CIPHER_DIRECTION) dir;
+        j->chain_order = IMB_ORDER_CIPHER_HASH;
+        j->enc_keys = n->ek;
+        j->dec_keys = n->dk;
+        j->key_len_in_bytes = (kind == SYNC_HASH) ? 16 : v->f[2];
+        j->src = n->src;
+        j->dst = n->dst;
+        j->iv = n->iv;
+        if (kind == SYNC_CIPHER) {
+                j->msg_len_to_cipher_in_bytes = n->len;
+                j->iv_len_in_bytes = 16;
+        } else if (kind == SYNC_HASH) {
+                j->auth_tag_output = n->tag;
+                j->auth_tag_output_len_in_bytes = sync_tag_len(ha);
+                if (ha == IMB_AUTH_AES_CMAC_BITLEN)
+                        j->msg_len_to_hash_in_bits = n->len * 8 - 3;
+                else
+                        j->msg_len_to_hash_in_bytes = n->len - 3;
+                if (ha == IMB_AUTH_AES_CMAC || ha == IMB_AUTH_AES_CMAC_BITLEN || ha == IMB_AUTH_AES_CMAC_256) {
+                        j->u.CMAC._key_expanded = n->ek;
+                        j->u.CMAC._skey1 = n->sk[0];
+                        j->u.CMAC._skey2 = n->sk[1];
+                } else {
+                        j->u.HMAC._hashed_auth_key_xor_ipad = n->pad[0];
+                        j->u.HMAC._hashed_auth_key_xor_opad = n->pad[1];
+                }
+        } else {
+                j->chain_order = (dir == IMB_DIR_ENCRYPT) ? IMB_ORDER_HASH_CIPHER : IMB_ORDER_CIPHER_HASH;
+                j->msg_len_to_cipher_in_bytes = n->len - 3;
+                j->msg_len_to_hash_in_bytes = n->len - 3;
+                j->iv_len_in_bytes = 13;
+                j->auth_tag_output = n->tag;
+                j->auth_tag_output_len_in_bytes = 8;
+                j->u.CCM.aad = n->aad;
+                j->u.CCM.aad_len_in_bytes = 12;
+        }
+}
+
+static int
+snbr_reference(IMB_MGR *m, struct snbr *n, int kind, const struct view *v)
+{
+        IMB_JOB *j = IMB_GET_NEXT_JOB(m);
+        snbr_fill(j, n, kind, v);
+        IMB_JOB *r = IMB_SUBMIT_JOB(m);
+        if (!r)
+                r = IMB_FLUSH_JOB(m);
+        if (!r || r != j || r->status != IMB_STATUS_COMPLETED)
+                return -1;
+        memcpy(n->ref_dst, n->dst, sizeof(n->dst));
+        memcpy(n->ref_tag, n->tag, sizeof(n->tag));
+        while (IMB_FLUSH_JOB(m))
+                ;
+        return 0;
+}
+static int
+snbr_untouched(const struct snbr *n)
+{
+        for (unsigned i = 0; i < sizeof(n->dst); i++)
+                if (n->dst[i] != 0xA5)
+                        return 0;
+        for (unsigned i = 0; i < sizeof(n->tag); i++)
+                if (n->tag[i] != 0x5A)
+                        return 0;
+        return 1;
+}
+static int
+snbr_ok(const IMB_JOB *j, const struct snbr *n)
+{
+        return j->status == IMB_STATUS_COMPLETED && memcmp(n->dst, n->ref_dst, sizeof(n->dst)) == 0 &&
+               memcmp(n->tag, n->ref_tag, sizeof(n->tag)) == 0;
+}
+
+static uint32_t
+sync_call(IMB_MGR *m, int kind, int chk, IMB_JOB *jobs, uint32_t n, const struct view *v)
+{
+        const IMB_CIPHER_MODE cm = (IMB_CIPHER_MODE) (uint32_t) v->f[16];
+        const IMB_CIPHER_DIRECTION dir = (IMB_CIPHER_DIRECTION) (uint32_t) v->f[17];
+        const IMB_HASH_ALG ha = (IMB_HASH_ALG) (uint32_t) v->f[18];
+        const IMB_KEY_SIZE_BYTES key = (IMB_KEY_SIZE_BYTES) (uint32_t) v->f[2];
+
+        switch (kind) {
+        case SYNC_CIPHER:
+                return chk ? IMB_SUBMIT_CIPHER_BURST(m, jobs, n, cm, dir, key)
+                           : IMB_SUBMIT_CIPHER_BURST_NOCHECK(m, jobs, n, cm, dir, key);
+        case SYNC_HASH:
+                return chk ? IMB_SUBMIT_HASH_BURST(m, jobs, n, ha) : IMB_SUBMIT_HASH_BURST_NOCHECK(m, jobs, n, ha);
+        default:
+                return chk ? IMB_SUBMIT_AEAD_BURST(m, jobs, n, cm, dir, key)
+                           : IMB_SUBMIT_AEAD_BURST_NOCHECK(m, jobs, n, cm, dir, key);
+        }
+}
+
+static uint8_t *refarena;         /* arena after the job-API run of the case descriptor */
+static volatile int sync_phase;   /* where a fault happened */
+
+/* phase 1: reference runs (job API).  Leaves arena == shadow == pristine + view. */
+static void
+sync_references(IMB_MGR *m, int mi, int kind, int args_ok, const struct view *v, int *have_ref, int *refst, int *referr, int *nref_ok)
+{
+        IMB_JOB *j, *r;
+
+        *have_ref = 0;
+        *nref_ok = 0;
+        j = IMB_GET_NEXT_JOB(m);
+        job_from_view(j, v);
+        if (kind == SYNC_AEAD)
+                j->chain_order = ((uint32_t) v->f[17] == IMB_DIR_ENCRYPT) ? IMB_ORDER_HASH_CIPHER : IMB_ORDER_CIPHER_HASH;
+        r = IMB_SUBMIT_JOB(m);
+        *referr = imb_get_errno(m);
+        if (!r)
+                r = IMB_FLUSH_JOB(m);
+        *refst = j->status;
+        while (IMB_FLUSH_JOB(m))
+                ;
+        if (r == j && j->status == IMB_STATUS_COMPLETED && *referr == 0) {
+                memcpy(refarena, arena, ARENA_SIZE);
+                *have_ref = 1;
+        }
+        if (memcmp(arena, shadow, ARENA_SIZE) != 0) {
+                reset_arena(0);
+                apply_memory_view(v);
+        }
+        if (args_ok) {
+                /* neighbour references: one job-API run per (manager, algorithm, direction, key size), cached
+                 * (consecutive cases mostly name the same algorithm) */
+                static struct {
+                        int valid, kind;
+                        uint32_t cm, dir, ha;
+                        uint64_t key;
+                        uint8_t dst[2][sizeof(SN[0].ref_dst)], tag[2][sizeof(SN[0].ref_tag)];
+                } nc[NMGRS];
+                __typeof__(&nc[0]) c = &nc[mi];
+                const uint32_t cm = (uint32_t) v->f[16], dir = (uint32_t) v->f[17], ha = (uint32_t) v->f[18];
+                if (c->valid && c->kind == kind && c->cm == cm && c->ha == ha && (kind == SYNC_HASH || (c->dir == dir && c->key == v->f[2]))) {
+                        for (int k = 0; k < 2; k++) {
+                                memcpy(SN[k].ref_dst, c->dst[k], sizeof(SN[k].ref_dst));
+                                memcpy(SN[k].ref_tag, c->tag[k], sizeof(SN[k].ref_tag));
+                        }
+                        *nref_ok = 1;
+                } else {
+                        c->valid = 0;
+                        *nref_ok = (snbr_reference(m, &SN[0], kind, v) == 0 && snbr_reference(m, &SN[1], kind, v) == 0);
+                        if (*nref_ok) {
+                                c->valid = 1;
+                                c->kind = kind;
+                                c->cm = cm;
+                                c->dir = dir;
+                                c->ha = ha;
+                                c->key = v->f[2];
+                                for (int k = 0; k < 2; k++) {
+                                        memcpy(c->dst[k], SN[k].ref_dst, sizeof(SN[k].ref_dst));
+                                        memcpy(c->tag[k], SN[k].ref_tag, sizeof(SN[k].ref_tag));
+                                }
+                        }
+                }
+        }
+}
+
+struct sync_obs {
+        int status, err, ret, dchg, nbr, order;
+};
+
+/* phase 2: one burst call */
+static void
+sync_one(IMB_MGR *m, int kind, int chk, unsigned pos, unsigned n, const struct view *v, struct sync_obs *o)
+{
+        static IMB_JOB sj[3], snap[3];
+        struct snbr *who[3] = { NULL, NULL, NULL };
+        unsigned k, nn = 0;
+
+        for (k = 0; k < n; k++) {
+                if (k == pos)
+                        job_from_view(&sj[k], v);
+                else {
+                        who[k] = &SN[nn++];
+                        snbr_fill(&sj[k], who[k], kind, v);
+                }
+                snap[k] = sj[k];
+        }
+        o->ret = (int) sync_call(m, kind, chk, sj, n, v);
+        o->err = imb_get_errno(m);
+        o->status = sj[pos].status;
+        o->dchg = desc_changed(&sj[pos], &snap[pos]);
+        o->nbr = 0;
+        o->order = 0;
+        if (o->ret == 0 && o->err != 0) {
+                int first = -1, count = 0;
+                for (k = 0; k < n; k++) {
+                        if (sj[k].status == IMB_STATUS_INVALID_ARGS) {
+                                if (first < 0)
+                                        first = (int) k;
+                                count++;
+                        }
+                        if (k != pos && (memcmp(&sj[k], &snap[k], sizeof(sj[k])) != 0 || !snbr_untouched(who[k])))
+                                o->nbr = 1;
+                }
+                o->order = (count > 1) || (count == 1 && first != (int) pos);
+                if (nn > 0) {
+                        /* the valid jobs on their own must still work */
+                        static IMB_JOB gj[2];
+                        snbr_fill(&gj[0], &SN[0], kind, v);
+                        snbr_fill(&gj[1], &SN[1], kind, v);
+                        const uint32_t got = sync_call(m, kind, 1, gj, 2, v);
+                        if (got != 2 || imb_get_errno(m) != 0 || !snbr_ok(&gj[0], &SN[0]) || !snbr_ok(&gj[1], &SN[1]))
+                                o->nbr = 1;
+                }
+        } else {
+                for (k = 0; k < n; k++)
+                        if (k != pos && !snbr_ok(&sj[k], who[k]))
+                                o->nbr = 1;
+        }
+}
+
+static void
+run_sync(int mi, const struct view *v, long caseno, int *clean)
+{
+        static const unsigned layouts[3][2] = { { 0, 2 }, { 1, 3 }, { 2, 3 } };
+        const int kind = sync_kind(v);
+        const int args_ok = sync_args_ok(kind, v);
+        IMB_MGR *m = mgrs[mi].mgr;
+        int have_ref = 0, refst = -1, referr = -1, nref_ok = 0;
+        int nocheck_pending = 0;
+
+        reset_arena(*clean);
+        *clean = 0;
+        if (apply_memory_view(v)) {
+                printf("R %ld %s sync skip-unsafe-view\n", caseno, mgrs[mi].name);
+                reset_arena(0);
+                return;
+        }
+        for (int li = -1; li < 4 && m; li++) {
+                /* li = -1: reference runs; 0..2: layouts; 3: the (1,3) layout through _NOCHECK */
+                struct sync_obs o = { -1, -1, -1, 0, 0, 0 };
+                unsigned pos = 0, n = 1;
+                int rc = 0, chk = 1;
+
+                if (li >= 0 && li < 3) {
+                        if (!args_ok && li > 0)
+                                continue;
+                        if (args_ok) {
+                                pos = layouts[li][0];
+                                n = layouts[li][1];
+                        }
+                } else if (li == 3) {
+                        if (!nocheck_pending)
+                                continue;
+                        pos = 1;
+                        n = 3;
+                        chk = 0;
+                }
+                fault_sig = 0;
+                if (sigsetjmp(fault_env, 1) == 0) {
+                        fault_armed = 1;
+                        alarm(20);
+                        if (li < 0) {
+                                sync_phase = 1;
+                                sync_references(m, mi, kind, args_ok, v, &have_ref, &refst, &referr, &nref_ok);
+                        } else {
+                                sync_phase = 2;
+                                sync_one(m, kind, chk, pos, n, v, &o);
+                        }
+                        alarm(0);
+                        fault_armed = 0;
+                } else {
+                        alarm(0);
+                        fault_armed = 0;
+                        free_mb_mgr(mgrs[mi].mgr);
+                        mgrs[mi].mgr = make_mgr(&mgrs[mi]);
+                        m = mgrs[mi].mgr;
+                        if (m) {
+                                nbr_init(m, &NA, 64, 1);
+                                nbr_init(m, &NB, 128, 2);
+                        }
+                }
+                if (m && !fault_sig) {
+                        int guard = 0;
+                        while (IMB_FLUSH_JOB(m) != NULL && guard++ < 512)
+                                ;
+                        if (IMB_QUEUE_SIZE(m) != 0) {
+                                free_mb_mgr(mgrs[mi].mgr);
+                                mgrs[mi].mgr = make_mgr(&mgrs[mi]);
+                                m = mgrs[mi].mgr;
+                                rc = -8;
+                        }
+                }
+                if (li < 0) {
+                        if (fault_sig || rc || (args_ok && !nref_ok)) {
+                                /* the job-API reference itself failed: reported, no burst is attempted */
+                                printf("R %ld %s sync status=%d errno=%d ret=-1 desc=0 arena=%d nbr=%d order=0 fault=%d rc=%d kind=%d pos=0 "
+                                       "n=0 chk=1 out=-1 refst=%d referr=%d phase=1\n",
+                                       caseno, mgrs[mi].name, refst, referr, memcmp(arena, shadow, ARENA_SIZE) != 0,
+                                       args_ok && !nref_ok, (int) fault_sig, rc ? rc : (fault_sig ? 0 : -9), kind, refst, referr);
+                                reset_arena(0);
+                                return;
+                        }
+                        continue;
+                }
+                const int achg = memcmp(arena, shadow, ARENA_SIZE) != 0;
+                const int out = have_ref ? (memcmp(arena, refarena, ARENA_SIZE) != 0) : -1;
+                printf("R %ld %s sync status=%d errno=%d ret=%d desc=%d arena=%d nbr=%d order=%d fault=%d rc=%d kind=%d pos=%u n=%u "
+                       "chk=%d out=%d refst=%d referr=%d phase=2\n",
+                       caseno, mgrs[mi].name, o.status, o.err, o.ret, o.dchg, achg, o.nbr, o.order, (int) fault_sig, rc, kind, pos, n,
+                       chk, out, refst, referr);
+                if (li == 1 && !fault_sig && o.ret == (int) n && o.err == 0 && o.status == IMB_STATUS_COMPLETED)
+                        nocheck_pending = 1;
+                if (achg || fault_sig) {
+                        reset_arena(0);
+                        apply_memory_view(v);
+                }
+        }
+        /* arena == shadow here (pristine + view) unless the manager was lost */
+        *clean = (m != NULL);
+}
+
+static int
+run_b(const char *path, const char *maskpath)
 {
         FILE *fp = fopen(path, "r");
         if (!fp) {
                 perror(path);
                 return 2;
         }
+        /* optional per-case selector, one character per case line:
+         *   '0' job + async burst only   '1' job + async burst + sync   '2' sync only, on managers k and k+3 (k = case number mod 3)
+         *   '3' sync only, every manager     (no file: all '1') */
+        char *mask = NULL;
+        size_t masklen = 0;
+        if (maskpath) {
+                FILE *mf = fopen(maskpath, "r");
+                if (!mf) {
+                        perror(maskpath);
+                        return 2;
+                }
+                fseek(mf, 0, SEEK_END);
+                long sz = ftell(mf);
+                fseek(mf, 0, SEEK_SET);
+                mask = malloc((size_t) sz + 1);
+                masklen = fread(mask, 1, (size_t) sz, mf);
+                fclose(mf);
+                while (masklen && (mask[masklen - 1] == '\n' || mask[masklen - 1] == '\r'))
+                        masklen--;
+        }
+        refarena = malloc(ARENA_SIZE);
+        snbr_init();
+        printf("E IMB_ERR_JOB_CIPH_DIR %d\n", (int) IMB_ERR_JOB_CIPH_DIR);
         track_shadow = 1;
         install_fault_handlers();
         /* reference outputs of the two neighbour jobs: computed on every manager, must agree */
@@ -625,11 +1114,26 @@ run_b(const char *path)
                         printf("R %ld - parse-error\n", caseno);
                         continue;
                 }
+                const char sel = mask ? ((size_t) caseno < masklen ? mask[caseno] : '0') : '1';
+                const int skind = sync_kind(&v);
+                if (sel != '0' && skind == SYNC_NA)
+                        printf("R %ld - sync skip-not-applicable\n", caseno);
                 for (int mi = 0; mi < NMGRS; mi++) {
-                        for (int api = 0; api < 2; api++) {
+                        for (int api = 0; api < 3; api++) {
                                 IMB_MGR *m = mgrs[mi].mgr;
                                 if (!m)
                                         continue;
+                                if (api < 2 && sel == '2')
+                                        continue;
+                                if (api < 2 && sel == '3')
+                                        continue;
+                                if (api == 2) {
+                                        /* '2': the validation code is one C source compiled per architecture; cases that
+                                         * go through the synchronous API only visit a rotating pair of managers */
+                                        if (sel != '0' && skind != SYNC_NA && (sel != '2' || mi % 3 == (int) (caseno % 3)))
+                                                run_sync(mi, &v, caseno, &clean);
+                                        continue;
+                                }
                                 reset_arena(clean);
                                 clean = 0;
                                 if (apply_memory_view(&v)) {
@@ -932,6 +1436,39 @@ run_m_one(const struct mgrdesc *d, IMB_MGR *m)
                 n = IMB_SUBMIT_HASH_BURST(m, hj, 3, IMB_AUTH_AES_XCBC);
                 e = imb_get_errno(m);
                 m_line(d->name, "hash_burst(hash=XCBC)", n == 0 && e == IMB_ERR_HASH_ALGO, (int) n, e, IMB_ERR_HASH_ALGO, "");
+                /* NULL array.  Every other burst entry point records IMB_ERR_NULL_BURST in the manager; the hash
+                 * burst (submit_hash_burst_and_check) calls imb_set_errno(NULL, IMB_ERR_NULL_JOB): another code, and
+                 * only the global error variable is written.  The header documents no error codes for this call, so
+                 * the row passes when the call returns 0 without faulting and imb_get_errno() yields either NULL-pointer
+                 * code; the difference is printed (`deviation:`) and recorded in the evidence (checks/c12.py decides
+                 * whether deviations count, see STRICT_MISUSE_ROWS). */
+                hj[1].auth_tag_output_len_in_bytes = 12;
+                n = IMB_SUBMIT_HASH_BURST(m, NULL, 3, IMB_AUTH_HMAC_SHA_1);
+                e = imb_get_errno(m);
+                {
+                        char extra[128];
+                        const int in_mgr = m->imb_errno;
+                        const uint32_t n2 = IMB_SUBMIT_HASH_BURST(m, hj, 3, IMB_AUTH_HMAC_SHA_1);
+                        const int after = (n2 == 3 && imb_get_errno(m) == 0 && memcmp(t0, NA.ref_tag, 12) == 0 &&
+                                           memcmp(t1, NA.ref_tag, 12) == 0 && memcmp(t2, NA.ref_tag, 12) == 0);
+                        snprintf(extra, sizeof(extra), "mgr-errno=%d valid-burst-afterwards=%d%s", in_mgr, after,
+                                 (e != IMB_ERR_NULL_BURST || in_mgr != e) ? " deviation:code-or-manager-field" : "");
+                        m_line(d->name, "hash_burst(jobs=NULL)", n == 0 && (e == IMB_ERR_NULL_BURST || e == IMB_ERR_NULL_JOB) && after,
+                               (int) n, e, IMB_ERR_NULL_BURST, extra);
+                }
+        }
+        /* 9. synchronous AEAD burst: NULL array / unsupported cipher */
+        {
+                static IMB_JOB aj[2];
+                memset(aj, 0, sizeof(aj));
+                n = IMB_SUBMIT_AEAD_BURST(m, NULL, 2, IMB_CIPHER_CCM, IMB_DIR_ENCRYPT, IMB_KEY_128_BYTES);
+                e = imb_get_errno(m);
+                m_line(d->name, "aead_burst(jobs=NULL)", n == 0 && e == IMB_ERR_NULL_BURST && m->imb_errno == e, (int) n, e,
+                       IMB_ERR_NULL_BURST, "");
+                n = IMB_SUBMIT_AEAD_BURST(m, aj, 2, IMB_CIPHER_GCM, IMB_DIR_ENCRYPT, IMB_KEY_128_BYTES);
+                e = imb_get_errno(m);
+                m_line(d->name, "aead_burst(cipher=GCM)", n == 0 && e == IMB_ERR_CIPH_MODE && aj[0].status == 0 && aj[1].status == 0,
+                       (int) n, e, IMB_ERR_CIPH_MODE, "jobs-untouched");
         }
 }
 
@@ -6189,7 +6726,7 @@ int
 main(int argc, char **argv)
 {
         if (argc < 2) {
-                fprintf(stderr, "usage: k12_validate a|l|b|i <cases> | m | s | d\n");
+                fprintf(stderr, "usage: k12_validate a|l|i <cases> | b <cases> [<selector>] | m | s | d\n");
                 return 2;
         }
         setvbuf(stdout, NULL, _IOFBF, 1 << 16);
@@ -6202,7 +6739,7 @@ main(int argc, char **argv)
                 init_mb_mgr_sse(m0);
                 nbr_init(m0, &NA, 64, 1);
                 nbr_init(m0, &NB, 128, 2);
-                return run_b(argv[2]);
+                return run_b(argv[2], argc >= 4 ? argv[3] : NULL);
         }
         if (argv[1][0] == 'm')
                 return run_m();
